@@ -7,6 +7,8 @@ import GocoinV.Model.Qdb
 namespace GocoinV.Proofs.C19
 open GocoinV GocoinV.Qdb
 
+variable {eg : Bool}
+
 /-- the record as it comes back from disk: no data in memory -/
 def strip (r : Rec) : Rec := { r with data := none }
 
